@@ -41,7 +41,7 @@ def lattice(tier):
     hdrs = [0, 1, 2]
     nss = [1, 3] if tier == 'quick' else [1, 2, 3]
     out = []
-    for ns_, opn, msgn, hd, flt, pt, nn, style, proto in itertools.product(nserv, (False, True), (False, True), hdrs, ('none', 'one', 'shared'),
+    for ns_, opn, msgn, hd, flt, pt, nn, style, proto in itertools.product(nserv, (False, True), (False, True), hdrs, ('none', 'one', 'shared', 'foreign-ns'),
                                                                          (False, True, 'first', 'last'), nss, ('wrapped', 'bare', 'out_bare'), ('soap11', 'soap12')):
         if pt in ('first', 'last') and ns_ < 2:
             continue      # (port types on the first / on the last service only: needs two services)
@@ -72,7 +72,8 @@ def lattice_program(f):
     for i in range(f['headers']):
         classes.append({'n': 'H%d' % i, 'fields': [['h', U], ['n', I]]})
         hs.append('H%d' % i)
-    faults = [{'n': 'F1'}] if f['faults'] != 'none' else []
+    # ('foreign-ns': the fault class declares a namespace of its own, other than the application's)
+    faults = [{'n': 'F1', 'ns': 'urn:vf:faults'} if f['faults'] == 'foreign-ns' else {'n': 'F1'}] if f['faults'] != 'none' else []
     services = []
     for si in range(f['nserv']):
         a = {'n': 'a%d' % si, 'args': [['p', ['c', top, {}]]] + ([] if f['style'] == 'bare' else [['n', I]]), 'ret': ['c', top, {}], 'kw': {}}
@@ -87,7 +88,7 @@ def lattice_program(f):
         if hs:
             a['in_header'] = list(hs)
             a['out_header'] = list(hs)
-        if f['faults'] in ('one', 'shared'):
+        if f['faults'] in ('one', 'shared', 'foreign-ns'):
             a['throws'] = ['F1']
         if f['faults'] == 'shared':
             b['throws'] = ['F1']
@@ -329,6 +330,8 @@ def deviation_only(want, got):
 
     def norm(x):
         if isinstance(x, Obj):
+            if all(norm(v) is None for v in x.f.values()):
+                return None      # zeep reads a nil object as an object without values and an empty element as no object
             return ('O', x.cls, tuple(sorted((k, norm(v)) for k, v in x.f.items())))
         if isinstance(x, (list, tuple)):
             return tuple(norm(v) for v in x) or None
